@@ -178,6 +178,27 @@ static void run_case(vf::Draw& d, vf::Case& c)
         VF_CHECK(vf::all_finite(th) && vf::all_finite(Xl) && vf::all_finite(Rl), "nonfinite", "round " << r << ": NaN/Inf in the results of a successful compute()");
         // the solver's own criterion is absolute: column norm of the residual < tol * n; an eigenvalue then errs by at most ||r|| / sqrt(lambda_min(B)) / ||x||_B
         const ld tolv = (ld) 1e-6 * spread + 100 * (ld) tol * (ld) n / std::sqrt(lminB);
+        // Features for the open finding KF-C17-7 (LOBPCG stopped by its residual criterion at an eigenpair that is not among the smallest):
+        // every returned value is a genuine eigenvalue of the pencil IN FORCE and the true residual A X - B_current X diag(theta) meets the
+        // solver's own criterion (column norms below tol * n). An answer that describes another pencil (stale B, stale products) has
+        // neither property, so it is never absorbed by that finding.
+        {
+            bool in_spec = true;
+            for (Index i = 0; i < k; i++)
+            {
+                ld best = std::numeric_limits<ld>::infinity();
+                for (Index j = 0; j < n; j++)
+                    best = std::min(best, std::abs(th[i] - lam[j]));
+                if (!(best <= tolv))
+                    in_spec = false;
+            }
+            MatL TR = A * Xl - B * Xl * th.asDiagonal();
+            ld worst = 0;
+            for (Index i = 0; i < k; i++)
+                worst = std::max(worst, TR.col(i).norm());
+            c.feat["r.all_in_spectrum_of_pencil_in_force"] = in_spec ? 1 : 0;
+            c.feat["r.true_residual_over_criterion"] = (double) (worst / ((ld) tol * (ld) n));
+        }
         for (Index i = 0; i < k; i++)
         {
             if (i + 1 < k)
@@ -213,7 +234,16 @@ static void run_case(vf::Draw& d, vf::Case& c)
         c.cls("with_preconditioner");
 }
 
+// KF-C17-7 as it shows in this unit: Success with genuine eigenvalues of the pencil in force whose true residuals (with the B in force) meet
+// the solver's own criterion, but not the k smallest ones (see the main unit for the mechanism). Everything else is reported.
+static std::string match(const vf::Violation& v, const vf::Case& c)
+{
+    if (v.kind == "not_the_smallest" && c.f("r.all_in_spectrum_of_pencil_in_force") > 0 && c.f("r.true_residual_over_criterion", 1e30) <= 1.0)
+        return "lobpcg_stopped_at_interior_eigenpair";
+    return "";
+}
+
 int main(int argc, char** argv)
 {
-    return vf::run_main(argc, argv, "C17", run_case);
+    return vf::run_main(argc, argv, "C17", run_case, match);
 }
